@@ -87,14 +87,14 @@ theorem roundRat_int (i : Int) : roundRat (i : Rat) = i := by
     have : (-(i : Rat) + 1/2) = ((-i : Int) : Rat) + 1/2 := by push_cast; rfl
     rw [this, floor_int_add_half]; omega
 
-/-- the adjusted lower bound `nMin` of getMinIntType -/
+/-- the adjusted lower bound `nMin` of getMinIntType: the least admitted integer -/
 def adjLo (lo : Option Rat) (x : XB) : Option Rat :=
   let r := normLo lo x
-  if r.2 then r.1.map (· + 1) else r.1
+  r.1.map (fun m => if r.2 then ((Rat.floor m : Int) : Rat) + 1 else ((Rat.ceil m : Int) : Rat))
 
 def adjHi (hi : Option Rat) (x : XB) : Option Rat :=
   let r := normHi hi x
-  if r.2 then r.1.map (· - 1) else r.1
+  r.1.map (fun m => if r.2 then ((Rat.ceil m : Int) : Rat) - 1 else ((Rat.floor m : Int) : Rat))
 
 theorem adjLo_int (z : ZBounds) :
     adjLo (z.lo.map (fun i => (i : Rat))) z.xlo.toXB = (effLo z).map (fun i => (i : Rat)) := by
@@ -102,14 +102,14 @@ theorem adjLo_int (z : ZBounds) :
   rcases lo with _ | m <;> rcases xlo with _ | b | q
   · simp [adjLo, normLo, effLo, XBZ.toXB]
   · cases b <;> simp [adjLo, normLo, effLo, XBZ.toXB]
-  · simp [adjLo, normLo, effLo, XBZ.toXB]
-  · simp [adjLo, normLo, effLo, XBZ.toXB]
-  · cases b <;> simp [adjLo, normLo, effLo, XBZ.toXB]
+  · simp [adjLo, normLo, effLo, XBZ.toXB, Rat.floor_intCast]
+  · simp [adjLo, normLo, effLo, XBZ.toXB, Rat.ceil_intCast]
+  · cases b <;> simp [adjLo, normLo, effLo, XBZ.toXB, Rat.ceil_intCast, Rat.floor_intCast]
   · by_cases h : q ≥ m
     · have h' : (q : Rat) ≥ (m : Rat) := by exact_mod_cast h
-      simp [adjLo, normLo, effLo, XBZ.toXB, h, h']
+      simp [adjLo, normLo, effLo, XBZ.toXB, h, h', Rat.ceil_intCast, Rat.floor_intCast]
     · have h' : ¬ (q : Rat) ≥ (m : Rat) := by exact_mod_cast h
-      simp [adjLo, normLo, effLo, XBZ.toXB, h, h']
+      simp [adjLo, normLo, effLo, XBZ.toXB, h, h', Rat.ceil_intCast, Rat.floor_intCast]
 
 theorem adjHi_int (z : ZBounds) :
     adjHi (z.hi.map (fun i => (i : Rat))) z.xhi.toXB = (effHi z).map (fun i => (i : Rat)) := by
@@ -117,14 +117,14 @@ theorem adjHi_int (z : ZBounds) :
   rcases hi with _ | m <;> rcases xhi with _ | b | q
   · simp [adjHi, normHi, effHi, XBZ.toXB]
   · cases b <;> simp [adjHi, normHi, effHi, XBZ.toXB]
-  · simp [adjHi, normHi, effHi, XBZ.toXB]
-  · simp [adjHi, normHi, effHi, XBZ.toXB]
-  · cases b <;> simp [adjHi, normHi, effHi, XBZ.toXB]
+  · simp [adjHi, normHi, effHi, XBZ.toXB, Rat.ceil_intCast]
+  · simp [adjHi, normHi, effHi, XBZ.toXB, Rat.floor_intCast]
+  · cases b <;> simp [adjHi, normHi, effHi, XBZ.toXB, Rat.ceil_intCast, Rat.floor_intCast]
   · by_cases h : q ≤ m
     · have h' : (q : Rat) ≤ (m : Rat) := by exact_mod_cast h
-      simp [adjHi, normHi, effHi, XBZ.toXB, h, h']
+      simp [adjHi, normHi, effHi, XBZ.toXB, h, h', Rat.ceil_intCast, Rat.floor_intCast]
     · have h' : ¬ (q : Rat) ≤ (m : Rat) := by exact_mod_cast h
-      simp [adjHi, normHi, effHi, XBZ.toXB, h, h']
+      simp [adjHi, normHi, effHi, XBZ.toXB, h, h', Rat.ceil_intCast, Rat.floor_intCast]
 
 theorem getMinIntType_eq_adj (lo hi : Option Rat) (xlo xhi : XB) :
     getMinIntType lo hi xlo xhi =
@@ -135,7 +135,6 @@ theorem getMinIntType_eq_adj (lo hi : Option Rat) (xlo xhi : XB) :
   rcases normLo lo xlo with ⟨a, b⟩
   rcases normHi hi xhi with ⟨c, d⟩
   rfl
-
 theorem adjustSigned_int (lo hi : Option Int) (hneg : ∀ l, lo = some l → l < 0) :
     adjustSigned (lo.map (fun i => (i : Rat))) (hi.map (fun i => (i : Rat))) = chooseZ lo hi := by
   rcases lo with _ | l <;> rcases hi with _ | h
